@@ -12,6 +12,7 @@ import (
 	"sort"
 	"strconv"
 	"strings"
+	"sync"
 
 	at "github.com/DanielSvub/anytype"
 )
@@ -1022,4 +1023,61 @@ func codeOf(v any) int {
 		return 13
 	}
 	return 0
+}
+
+// ---------------------------------------------------------------- async variants (sequential view)
+
+func (m *Machine) ForEachAsync(r string) string {
+	return m.Op("foreachasync", r, "", func() string {
+		var mu sync.Mutex
+		type call struct {
+			i int
+			v any
+		}
+		var calls []call
+		ret := m.L(r).ForEachAsync(func(i int, v any) {
+			mu.Lock()
+			calls = append(calls, call{i, v})
+			mu.Unlock()
+		})
+		sort.SliceStable(calls, func(a, b int) bool { return calls[a].i < calls[b].i })
+		var log []string
+		for _, c := range calls {
+			log = append(log, itok(c.i), m.tokVal(c.v))
+		}
+		return m.tokVal(ret) + " | " + strings.Join(log, " ")
+	})
+}
+func (m *Machine) MapAsync(r string, fn *Fn) string {
+	var tok string
+	m.Op("mapasync", r, fn.Token(), func() string {
+		tok = m.reg(m.L(r).MapAsync(func(i int, v any) any { return fn.Apply(i, v) }))
+		return tok
+	})
+	return tok
+}
+func (m *Machine) OForEachAsync(r string) string {
+	return m.Op("oforeachasync", r, "", func() string {
+		var mu sync.Mutex
+		var log []string
+		ret := m.O(r).ForEachAsync(func(k string, v any) {
+			mu.Lock()
+			log = append(log, "k"+hx(k), m.tokVal(v))
+			mu.Unlock()
+		})
+		return m.tokVal(ret) + " | " + strings.Join(log, " ")
+	})
+}
+func (m *Machine) OMapAsync(r string, fn *Fn) string {
+	var tok string
+	m.Op("omapasync", r, fn.Token(), func() string {
+		tok = m.reg(m.O(r).MapAsync(func(k string, v any) any { return fn.Apply(k, v) }))
+		return tok
+	})
+	return tok
+}
+
+// Alarm records a property violation the harness observed by itself.
+func (m *Machine) Alarm(prop, msg string) {
+	m.emit("fn\talarm\t" + prop + "\t" + strings.ReplaceAll(strings.ReplaceAll(msg, "\t", " "), "\n", " "))
 }
